@@ -362,6 +362,9 @@ def r02_3b(ctx):
             for perm in itertools.permutations(range(3)):
                 for flag in (True, False):
                     subs = [SubS(f"s{i}", answers[i], areas[i]) for i in range(3)]
+                    # the box of the composite (the box of its boundary curves) encloses the region only when the region
+                    # is bounded: an intersection with one bounded member, a union of bounded members only
+                    bounded = any(a > 0 for a in areas) if agg is all else all(a > 0 for a in areas)
                     S = Obj("S")
                     try:
                         if setter is not None:
@@ -373,7 +376,7 @@ def r02_3b(ctx):
                             S.__dict__["subshapes"] = tuple(subs[i] for i in perm)
                         S.__dict__["jordans"] = tuple(x.jordans[0] for x in S.__dict__["subshapes"])
                         got = Runner(ctx, set(), lambda rn, ev, c, n, r, a, k: (
-                            (FullBox() if agg(answers) else AdvBox()) if n == "box" and r is S else
+                            (FullBox() if agg(answers) and bounded else AdvBox()) if n == "box" and r is S else
                             sum(areas) if n == "float" and a and a[0] is S else NotImplemented)).call_fn(fn, [S, arg, flag])
                     except (Undecided, Raised) as ex:
                         undecided = str(getattr(ex, "what", ex))
